@@ -134,6 +134,21 @@ CHECKS = {
         note=TLC_BASE + "; 1 unit = 256 bytes; schedules are sampled (seeded amplifier), not enumerated; hook events "
              "are emitted under the appender lock",
         design="7/C04"),
+    "C15": dict(
+        category="model_checking",
+        technique="TLA+ specs Reconfig.tla (trace validation of real logging / reconfiguring threads, impl->spec) and "
+                  "Reloader.tla (every edit/poll history replayed through the guarded run_once API, spec->impl)",
+        text="Reconfig.tla: one swapped snapshot, log = load once then fan-out, set_config = build / set max / store; "
+             "TLC checks SnapshotWasCurrent for 2 loggers x 1-2 reconfigurers. Real threads are then traced (directed: "
+             "swap while a logger is parked inside appender 1/2/3, swap between load and fan-out, re-entrant "
+             "set_config from inside an appender; free-running with an amplifier) with generation-tagged deliveries; "
+             "TLC decides whether the trace is a behaviour of the spec (load / store are silent steps), so a mixed "
+             "record, a stale record after set_config returned, or a panic is rejected. Reloader.tla transcribes "
+             "run_once; AppliesValid, KeepsOnBad, NoSwapIfUnchanged, StopsOnlyOnRateRemoval are TLC action properties "
+             "and every history of the bounded instance is replayed in YAML/JSON/TOML with explicit mtimes, comparing "
+             "the result class, the active version, the rate and whether the logger was swapped.",
+        note=TLC_BASE + "; free-running schedules are sampled; the reloader's sleep loop is not driven in the quick tier",
+        design="7/C15"),
 }
 
 NOT_YET = "check not built yet in this round (planned, see DESIGN.md section 7)"
